@@ -23,7 +23,7 @@ from ..gen import c18ltranslate as TRL          # registers its sites in TRS.EXT
 
 PID = "C18"
 TITLE = "Surface frame fields are unit, border-aligned and topologically consistent"
-LEAN_MODULES = ["Mouette.Props.C18", "Mouette.Props.C18Source", "Mouette.Props.C18Real"]
+LEAN_MODULES = ["Mouette.Props.C18", "Mouette.Props.C18Source", "Mouette.Props.C18Real", "Mouette.Props.C18Mesh"]
 REQUIRED_THEOREMS = [
     "normalize_unit", "normalize_all_unit", "constrained_untouched", "constrained_survive_normalize",
     "index_sum_telescopes", "matching_quantised", "matching_minimal", "index_quantised", "fan_theta_telescopes",
@@ -69,6 +69,12 @@ REQUIRED_THEOREMS = [
     "source_connection_faces_basis_on_feature", "source_connection_faces_basis_plain", "bridge_connection_faces_transport",
     "source_connection_faces_transport_antisymmetric", "source_connection_vertices_ring",
     "source_export_faces_edges_in_range", "source_export_vertices_edges_in_range",
+    # round 7: connectivity contract discharged from C01 (Props/C18Mesh.lean), ring loops in closed form + closure, _initialize_attributes, flat faces
+    "vertex_to_edges_contract", "source_flag_faces_index_total_on_mesh",
+    "source_connection_vertices_feature_closed_form", "source_connection_vertices_interior_closed_form",
+    "source_connection_vertices_feature_ring_closes", "source_connection_vertices_interior_ring_closes",
+    "source_initialize_attributes_faces_default", "source_initialize_attributes_faces_custom", "source_initialize_attributes_vertices_default",
+    "source_initialize_attributes_vertices_defect", "source_laplacian_triangles_flat",
 ]
 TRUSTED = [
     "Lean 4.33.0 kernel; axioms ⊆ {propext, Classical.choice, Quot.sound}",
@@ -131,7 +137,7 @@ SOURCE_MAP = {
     _FF + "base.py::FrameField.__init__": "translated: fragments (initial flags -> C18S.fresh; bridge_fresh)",
     _FF + "base.py::FrameField.element": "out-of-scope: read-only accessor of the element kind",
     _FF + "base.py::FrameField._check_init": "translated: imperative (C18S.checkInitRaises; source_check_init_passes)",
-    _FF + "base.py::FrameField.__getitem__": "oracle-only",
+    _FF + "base.py::FrameField.__getitem__": "out-of-scope: read accessor `ff[i]` of self.var, not used by the check nor by the field's computation",
     _FF + "base.py::FrameField.initialize": "out-of-scope: abstract method",
     _FF + "base.py::FrameField.optimize": "out-of-scope: abstract method",
     _FF + "base.py::FrameField.run": "translated: imperative (C18S.run; bridge_run)",
@@ -139,26 +145,26 @@ SOURCE_MAP = {
     _FF + "base.py::FrameField.export_as_mesh": "out-of-scope: abstract method",
     _FF + "base.py::FrameField.flag_singularities": "out-of-scope: abstract method",
     # ---- faces2d.py
-    _FF + "faces2d.py::_BaseFrameField2DFaces.__init__": "oracle-only",
-    _FF + "faces2d.py::_BaseFrameField2DFaces._initialize_attributes": "oracle-only",
+    _FF + "faces2d.py::_BaseFrameField2DFaces.__init__": "oracle-only: stores the options; the harness passes every option explicitly (defaults are not quantified over); custom_connection / custom_features enter the translated _initialize_attributes as its input state",
+    _FF + "faces2d.py::_BaseFrameField2DFaces._initialize_attributes": "translated: imperative (C18S.initializeAttributesFaces: cot not persisted, default detector only_border = not features, connection built on the field's feature set, custom ones kept; source_initialize_attributes_faces_default / _custom)",
     _FF + "faces2d.py::_BaseFrameField2DFaces._initialize_variables": "translated: imperative (C18S.initVariablesFaces; bridge_init_variables_faces)",
     _FF + "faces2d.py::_BaseFrameField2DFaces._compute_attach_weight": "translated: fragments (filter threshold, fail value, abs(min); bridge_attach_weight)",
     _FF + "faces2d.py::_BaseFrameField2DFaces.flag_singularities": "translated: imperative (C18S.flagEdgeRotFaces / flagSingulsFaces; bridge_flag_faces_edge_rot, bridge_flag_faces_singuls)",
     _FF + "faces2d.py::_BaseFrameField2DFaces.export_as_mesh": "translated: imperative (index structure of the exported poly-line: C18S.exportFacesEdges / VerticesPer; source_export_faces_edges_in_range); geometry of the tips not modelled; not an observable of the property",
-    _FF + "faces2d.py::FrameField2DFaces.__init__": "oracle-only",
+    _FF + "faces2d.py::FrameField2DFaces.__init__": "oracle-only: forwards to the base constructor",
     _FF + "faces2d.py::FrameField2DFaces.initialize": "translated: imperative (C18S.initializeFaces; bridge_initialize_faces)",
     _FF + "faces2d.py::FrameField2DFaces.optimize": "translated: imperative (C18S.optimizeFaces; bridge_optimize_faces)",
     _FF + "faces2d.py::TrivialConnectionFaces.__init__": "out-of-scope: trivial connections are outside the quantifier of C18",
     _FF + "faces2d.py::TrivialConnectionFaces.initialize": "out-of-scope: trivial connections are outside the quantifier of C18",
     _FF + "faces2d.py::TrivialConnectionFaces.optimize": "out-of-scope: trivial connections are outside the quantifier of C18",
     # ---- vertex2d.py
-    _FF + "vertex2d.py::_BaseFrameField2DVertices.__init__": "oracle-only",
-    _FF + "vertex2d.py::_BaseFrameField2DVertices._initialize_attributes": "oracle-only",
+    _FF + "vertex2d.py::_BaseFrameField2DVertices.__init__": "oracle-only: stores the options and creates the zero field the translated _initialize_variables starts from; every option is passed explicitly by the harness",
+    _FF + "vertex2d.py::_BaseFrameField2DVertices._initialize_attributes": "translated: imperative (C18S.initializeAttributesVerts + defectSumsVerts: cot refreshed on the mesh, detector with corner_order = order, connection on the feature set, defect loop; source_initialize_attributes_vertices_default / _defect)",
     _FF + "vertex2d.py::_BaseFrameField2DVertices._initialize_variables": "translated: imperative (C18S.initVariablesVerts, whole body; bridge_init_variables_vertices to FFV.initVertsFull under the contract of abs)",
     _FF + "vertex2d.py::_BaseFrameField2DVertices._compute_attach_weight": "translated: fragments (same constants as the face-based one; bridge_attach_weight)",
     _FF + "vertex2d.py::_BaseFrameField2DVertices.flag_singularities": "translated: imperative (C18S.flagEdgeRotVerts / flagSingulsVerts, whole body; bridge_flag_vertices_edge_rot, bridge_flag_vertices_singuls, source_flag_vertices_dict_is_rotD)",
     _FF + "vertex2d.py::_BaseFrameField2DVertices.export_as_mesh": "translated: imperative (index structure, both repr_vector branches: C18S.exportVertsEdges / VerticesPer; source_export_vertices_edges_in_range); geometry not modelled; not an observable of the property",
-    _FF + "vertex2d.py::FrameField2DVertices.__init__": "oracle-only",
+    _FF + "vertex2d.py::FrameField2DVertices.__init__": "oracle-only: forwards to the base constructor",
     _FF + "vertex2d.py::FrameField2DVertices.initialize": "translated: imperative (C18S.initializeVerts; bridge_initialize_vertices)",
     _FF + "vertex2d.py::FrameField2DVertices._modify_parallel_transport": "out-of-scope: cad_correction (OSQP-modified transport) is outside the quantifier",
     _FF + "vertex2d.py::FrameField2DVertices.optimize": "translated: imperative (C18S.optimizeVerts; bridge_optimize_vertices)",
@@ -166,40 +172,40 @@ SOURCE_MAP = {
     _FF + "vertex2d.py::TrivialConnectionVertices.initialize": "out-of-scope: trivial connections are outside the quantifier of C18",
     _FF + "vertex2d.py::TrivialConnectionVertices.optimize": "out-of-scope: trivial connections are outside the quantifier of C18",
     # ---- connection.py
-    "mouette/processing/connection.py::SurfaceConnection.__init__": "oracle-only",
+    "mouette/processing/connection.py::SurfaceConnection.__init__": "oracle-only: stores mesh / feat and calls the translated _initialize",
     "mouette/processing/connection.py::SurfaceConnection._initialize": "out-of-scope: abstract method",
-    "mouette/processing/connection.py::SurfaceConnection.transport": "oracle-only",
-    "mouette/processing/connection.py::SurfaceConnection.base": "oracle-only",
-    "mouette/processing/connection.py::SurfaceConnection.bX": "oracle-only",
-    "mouette/processing/connection.py::SurfaceConnection.bY": "oracle-only",
-    "mouette/processing/connection.py::SurfaceConnection.project": "oracle-only",
-    "mouette/processing/connection.py::SurfaceConnectionVertices.__init__": "oracle-only",
+    "mouette/processing/connection.py::SurfaceConnection.transport": "oracle-only: dict lookup `_transport[(iA,iB)]` of what the translated _initialize wrote; the harness reads every transport through it",
+    "mouette/processing/connection.py::SurfaceConnection.base": "oracle-only: array lookup of the bases; read by the harness (projections, angles of edges in the bases) and checked orthonormal / tangent by the oracle",
+    "mouette/processing/connection.py::SurfaceConnection.bX": "out-of-scope: array view of the bases, not used by the surface frame fields nor by the check",
+    "mouette/processing/connection.py::SurfaceConnection.bY": "out-of-scope: array view of the bases, not used by the surface frame fields nor by the check",
+    "mouette/processing/connection.py::SurfaceConnection.project": "oracle-only: two dot products with the stored basis; its values are the `proj` parameter of the translated vertex _initialize_variables",
+    "mouette/processing/connection.py::SurfaceConnectionVertices.__init__": "oracle-only: computes total_angle (the `total` parameter of the translated ring loops) from the corner angles and calls _initialize",
     "mouette/processing/connection.py::SurfaceConnectionVertices._initialize": "translated: imperative (C18S.connVertsFirst / connVertsRingFeature / connVertsRingInterior / connVertsTransport, whole body; source_connection_vertices_ring; formulas bridge_connection_formulas); the 3-D basis vectors themselves are oracle-only",
-    "mouette/processing/connection.py::FlatConnectionVertices.__init__": "oracle-only",
-    "mouette/processing/connection.py::FlatConnectionVertices._initialize": "oracle-only",
-    "mouette/processing/connection.py::FlatConnectionVertices.transport": "oracle-only",
-    "mouette/processing/connection.py::FlatConnectionVertices.base": "oracle-only",
-    "mouette/processing/connection.py::FlatConnectionVertices.project": "oracle-only",
-    "mouette/processing/connection.py::SurfaceConnectionFaces.__init__": "oracle-only",
+    "mouette/processing/connection.py::FlatConnectionVertices.__init__": "oracle-only: only used by the oracle's flat-connection clause (planar meshes)",
+    "mouette/processing/connection.py::FlatConnectionVertices._initialize": "out-of-scope: empty body",
+    "mouette/processing/connection.py::FlatConnectionVertices.transport": "oracle-only: arctan2 of the edge direction; used by the oracle's flat-connection clause (the translated vertex operator is compared with the scalar one numerically)",
+    "mouette/processing/connection.py::FlatConnectionVertices.base": "out-of-scope: constant basis, not read by the operators",
+    "mouette/processing/connection.py::FlatConnectionVertices.project": "out-of-scope: not read by the operators",
+    "mouette/processing/connection.py::SurfaceConnectionFaces.__init__": "oracle-only: forwards to SurfaceConnection.__init__",
     "mouette/processing/connection.py::SurfaceConnectionFaces._initialize": "translated: imperative (C18S.connFacesTriple / connFacesTransport, whole body; source_connection_faces_basis_on_feature, bridge_connection_faces_transport); geom.face_basis itself is oracle-only",
-    "mouette/processing/connection.py::FlatConnectionFaces.__init__": "oracle-only",
-    "mouette/processing/connection.py::FlatConnectionFaces._initialize": "oracle-only",
-    "mouette/processing/connection.py::FlatConnectionFaces.transport": "oracle-only",
-    "mouette/processing/connection.py::FlatConnectionFaces.base": "oracle-only",
-    "mouette/processing/connection.py::FlatConnectionFaces.project": "oracle-only",
+    "mouette/processing/connection.py::FlatConnectionFaces.__init__": "oracle-only: only used by the oracle's flat-connection clause",
+    "mouette/processing/connection.py::FlatConnectionFaces._initialize": "out-of-scope: empty body",
+    "mouette/processing/connection.py::FlatConnectionFaces.transport": "translated: imperative (C18S.flatFacesTransport; source_laplacian_triangles_flat: the connection rows of Nabla become the scalar rows)",
+    "mouette/processing/connection.py::FlatConnectionFaces.base": "out-of-scope: constant basis, not read by the operators",
+    "mouette/processing/connection.py::FlatConnectionFaces.project": "out-of-scope: not read by the operators",
     "mouette/processing/connection.py::SurfaceConnectionEdges.__init__": "out-of-scope: edge-based connection, not used by the surface frame fields",
     "mouette/processing/connection.py::SurfaceConnectionEdges._initialize": "out-of-scope: edge-based connection, not used by the surface frame fields",
     # ---- laplacian_op.py
     "mouette/operators/laplacian_op.py::graph_laplacian": "out-of-scope: not used by the surface frame fields",
     "mouette/operators/laplacian_op.py::graph_laplacian.add": "out-of-scope: not used by the surface frame fields",
     "mouette/operators/laplacian_op.py::laplacian": "translated: imperative (C18S.laplacianTriplets: every triplet in fill order; bridge_laplacian_vertices to FF.entryVert / coeff; source_laplacian_vertices_hermitian)",
-    "mouette/operators/laplacian_op.py::cotan_edge_diagonal": "oracle-only",
+    "mouette/operators/laplacian_op.py::cotan_edge_diagonal": "oracle-only: the diagonal is the parameter `dw` of the translated laplacian_triangles (Hermitian / flat clauses hold for ANY weights); values compared with the model per run",
     "mouette/operators/laplacian_op.py::laplacian_triangles": "translated: imperative (C18S.nablaRows / nablaRowWeight: rows of Nabla, returned product; bridge_laplacian_triangles to FF.entryFace / coeff; source_laplacian_triangles_hermitian)",
     "mouette/operators/laplacian_op.py::laplacian_edges": "out-of-scope: not used by the surface frame fields",
     "mouette/operators/laplacian_op.py::volume_laplacian": "out-of-scope: volumes",
     "mouette/operators/laplacian_op.py::laplacian_tetrahedra": "out-of-scope: volumes",
     # ---- eigensolve.py, maths.py
-    "mouette/optimize/eigensolve.py::inverse_power_method": "oracle-only",
+    "mouette/optimize/eigensolve.py::inverse_power_method": "oracle-only: numeric eigen-solver (T7), the parameter Num.ipm of the translated optimize; its output is checked per run (unit modulus, Hermitian operator)",
     "mouette/optimize/eigensolve.py::rayleigh_quotient_iteration": "out-of-scope: not used by the surface frame fields",
     "mouette/utils/maths.py::roots": "translated: fragments (C18V.rootPhase; bridge_roots)",
     "mouette/utils/maths.py::angle_diff": "translated: fragments (C18V.angleDiff; bridge_angle_diff)",
@@ -1506,7 +1512,12 @@ MANIFEST = {
                    "given only U(-x) = conj U(x) and period 1 of U = exp(2 pi i x)); SurfaceConnectionFaces._initialize (the triple handed to face_basis starts on a feature "
                    "side whenever the face has one; the transport dict is antisymmetric on a well-formed dual edge list), SurfaceConnectionVertices._initialize (ring loops: "
                    "first neighbour at the entering running sum, second at the rescaled first corner angle) and the index structure of export_as_mesh (every edge joins two of "
-                   "the (order+1) n exported vertices) are translated and bridged too."),
+                   "the (order+1) n exported vertices) are translated and bridged too. "
+                   "Round 7: the connectivity hypothesis of the index-total theorem is DISCHARGED from C01's model of vertex_to_edges / other_edge_end / edge_id on every built mesh "
+                   "(Props/C18Mesh.lean: the loop sees a permutation of the incident (other end, rotation) pairs; no hypothesis on the mesh left); the ring loops of the vertex connection "
+                   "are given in closed form (prefix sums) and close on dfct = corners*2pi/order at feature vertices and on one turn elsewhere; _initialize_attributes of both fields is "
+                   "translated (default detector only_border = not features, connection built on the field's own feature set, cotan refreshed on the mesh by the vertex field only, defect "
+                   "loop = sum of corner angles per vertex); FlatConnectionFaces.transport is translated and the connection rows of Nabla are proved equal to the scalar rows for it."),
     "level_note": ("Trusted: Lean kernel + propext/Classical.choice/Quot.sound; the ast translator for 4 constant sites; the hand-written "
                    "model, tied to the code by feeding it the implementation's own per-edge transports / weights / phases / solver output "
                    "and comparing assembled matrix, partition, constraints, normalised field, edge rotations and vertex sums at 1e-9; "
